@@ -1,9 +1,11 @@
 // h_c20: correspondence harness for C20 (deletion removes exactly the requested data).
 // Three streams, each with its own case files and correspondence module:
-//   cases_NNN.v   (corr/CorrC20.v)   the real tombstones.Intervals.Add on enumerated + generated
-//                                    inputs (result or panic)                       [this file]
-//   cases_hNNN.v  (corr/CorrC20H.v)  delete-centred histories on a real tsdb.DB     [hist.go]
-//   cases_tNNN.v  (corr/CorrC20T.v)  tombstones.WriteFile / ReadTombstones round trips [tomb.go]
+//
+//	cases_NNN.v   (corr/CorrC20.v)   the real tombstones.Intervals.Add on enumerated + generated
+//	                                 inputs (result or panic)                       [this file]
+//	cases_hNNN.v  (corr/CorrC20H.v)  delete-centred histories on a real tsdb.DB     [hist.go]
+//	cases_tNNN.v  (corr/CorrC20T.v)  tombstones.WriteFile / ReadTombstones round trips [tomb.go]
+//
 // Case ids: intervals from 0, histories from 100000, tombstone files from 200000.
 package main
 
